@@ -129,6 +129,7 @@ def projectors(ctx, N, rule):
                 for a, rv in zip(("singular_values_", "explained_variance_", "explained_variance_ratio_"), ref.items):
                     ctx.compare("R-SPECTRUM", f"feature space {a} from the retained spectrum [{solver},{name}]", N, ctx.attr(st, o, a), rv, site, cfg)
             ctx.no_shape_conflicts("Shape", f"_fit_feature_space [{solver},{name}]", I, 0, site, cfg)
+            _args_untouched(ctx, rule, I, (X, Y, Yhat), f"_fit_feature_space [{solver},{name}]", site, cfg)
             # ---- sample space
             rec = []
             I, st = ctx.interp(stubs=decomposition_stubs(rec), assume=protocols.assume_default), State()
@@ -153,6 +154,16 @@ def projectors(ctx, N, rule):
                 for a, rv in zip(("singular_values_", "explained_variance_", "explained_variance_ratio_"), ref.items):
                     ctx.compare("R-SPECTRUM", f"sample space {a} from the retained spectrum [{solver},{name}]", N, ctx.attr(st, o, a), rv, site, cfg)
             ctx.no_shape_conflicts("Shape", f"_fit_sample_space [{solver},{name}]", I, 0, site, cfg)
+            _args_untouched(ctx, rule, I, (X, Y, Yhat, W), f"_fit_sample_space [{solver},{name}]", site, cfg)
+
+
+def _args_untouched(ctx, rule, I, args, what, site, cfg):
+    """the arguments of a route are the caller's arrays (or views of them: a precomputed W, the regressor's coefficients):
+    every later fit and the other route read them again, so the route may not write into them"""
+    locs = {a.loc for a in args if getattr(a, "loc", None) is not None}
+    terms = {a.term for a in args}
+    bad = [e for e in I.events if e["kind"] == "mutate" and (getattr(e["target"], "loc", None) in locs or e["target"].term in terms)]
+    ctx.ob(rule, f"{what} leaves its arguments unchanged", not bad, f"in-place writes: {[e.get('src') for e in bad][:3]}" if bad else "no in-place write on an argument", site, cfg, nontrivial=False)
 
 
 def spectrum(ctx, N, cls_qual=PCOVR, label="PCovR"):
